@@ -16,7 +16,7 @@
 //!              | {"wait_idle": true} | {"sleep_ms": n}],
 //!    "watchdog_ms": 10000, "quiet_ms": 300, "hard_ms": 120000,
 //!    "holds": [{"point": p, "until": q, "max_ms": 400,    (only with hook H2 compiled in) a thread reaching hook
-//!               "arm_after_step": i, "count": n}]}         point p is parked until point q is reached by anybody
+//!               "arm_after_step": i, "skip": k, "count": n}]}   (the first k armed occurrences pass freely)         point p is parked until point q is reached by anybody
 //!                                                          or max_ms elapse; armed once step i has been sent
 //!                                                          (default: from the start); at most n times (default: always)
 //!   kinds: definition references hover completion documentSymbol foldingRange documentLink inlayHint
@@ -74,6 +74,8 @@ mod hooks {
         pub arm_after_step: i64,
         pub count: i64,
         pub used: std::sync::atomic::AtomicI64,
+        pub skip: i64,
+        pub seen: std::sync::atomic::AtomicI64,
     }
 
     #[derive(Default)]
@@ -117,6 +119,7 @@ mod hooks {
             for h in &self.holds {
                 if h.point == point
                     && self.step.load(SeqCst) >= h.arm_after_step
+                    && h.seen.fetch_add(1, SeqCst) >= h.skip
                     && (h.count < 0 || h.used.fetch_add(1, SeqCst) < h.count)
                 {
                     let base = st.counts.get(h.until.as_str()).copied().unwrap_or(0);
@@ -157,6 +160,8 @@ mod hooks {
                     arm_after_step: h["arm_after_step"].as_i64().unwrap_or(-1),
                     count: h["count"].as_i64().unwrap_or(-1),
                     used: std::sync::atomic::AtomicI64::new(0),
+                    skip: h["skip"].as_i64().unwrap_or(0),
+                    seen: std::sync::atomic::AtomicI64::new(0),
                 });
             }
         }
